@@ -6,7 +6,7 @@ from pestverif.runner import Ctx
 
 ID = "C15"
 RULE = (
-    "histories: Hypothesis draws a list of up to 30 operations create_parser(grammar from a pool of 5 fixed "
+    "histories: Hypothesis draws a list of up to 30 operations create_parser(grammar from a pool of 6 fixed "
     "grammars using ASCII_*, NEWLINE, Unicode built-ins, WHITESPACE choices (SKIP fusion), silent rules and "
     "the stack, plus 2 generated ones; optimizer None / default / one of 5 custom pass lists), "
     "generate(parser), parse(parser or generated module, rule, succeeding or failing input, start_pos), all "
@@ -16,7 +16,11 @@ RULE = (
     "schedules: 2-4 threads x 2-3 parse() calls on shared parser objects and generated modules run under a "
     "cooperative scheduler driven by sys.monitoring LINE events in pest code (exactly one thread runs at a "
     "time, the seeded PRNG decides at every line whether to hand over), so the interleaving is a pure "
-    "function of the seed; each thread's results must equal the sequential results; a free-running stress "
+    "function of the seed; each thread's results must equal the sequential results; plus focused contention "
+    "schedules (one shared object per pool grammar x optimizer off/on x interpreter/generated, three threads "
+    "parsing different inputs on it, hand-over probability 0.15-0.6) and preemption-bounded EXHAUSTIVE "
+    "schedules (one shared object, every ordered pair of inputs of a group, the first thread pre-empted at every "
+    "single line of its parse by a whole parse of the second); a free-running stress "
     "run (8 threads, switch interval 1e-6) is a supplement whose failures only count if they reproduce "
     "three times. Non-trivial: a history in which a parser is observed after another parser with a "
     "different optimizer setting or grammar was created or used; a schedule with >= 1 pre-emption inside "
@@ -27,7 +31,7 @@ ASSUMPTIONS = [
     "isolated reference results are computed in freshly forked children of a process that never built a "
     "Parser",
 ]
-SIZES = {"quick": {"hist": 25, "sched": 20}, "thorough": {"hist": 600, "sched": 500}}
+SIZES = {"quick": {"hist": 25, "sched": 20, "focus": 9, "pre_inputs": 3}, "thorough": {"hist": 600, "sched": 500, "focus": 60, "pre_inputs": 6}}
 
 POOL = [
     ('WHITESPACE = _{ " " }\na = { b ~ ("x" | c)* ~ !"q" }\nb = @{ ASCII_DIGIT+ }\nc = ${ "y" ~ b? }\n',
@@ -40,6 +44,10 @@ POOL = [
      [("l", "<ab<"), ("l", "[x y["), ("l", "<a"), ("l", "<a["), ("l", "")]),
     ('COMMENT = _{ "/*" ~ (!"*/" ~ ANY)* ~ "*/" }\nk = { "a" ~ "b" ~ ASCII_OCT_DIGIT ~ (ASCII_ALPHA_UPPER | ASCII_BIN_DIGIT)* }\n',
      [("k", "a/* c */b7"), ("k", "ab8"), ("k", "a/* b7"), ("k", "ab7AZ01"), ("k", "ab")]),
+    # skip-until shapes (rewritten by the skip pass into a SkipUntil node shared by all parse() calls of the parser)
+    ('s = @{ "\\"" ~ (!("\\"" | "\\\\") ~ ANY)* ~ "\\"" }\nline = { (!NEWLINE ~ ANY)* ~ NEWLINE? ~ ASCII_DIGIT* }\nu = @{ (!("ab" | "b") ~ ANY)* ~ ANY? }\n',
+     [("s", '"ab"'), ("s", '"abc'), ("s", '"a\\b"'), ("s", '""'), ("line", "abc\n12"), ("line", "abcdef"), ("line", "a\r\n1"),
+      ("u", "xxab"), ("u", "xxxx"), ("u", "xb"), ("u", "")]),
 ]
 CONFIGS = ["raw", "opt", [0], [3], [2, 3], [1, 2, 3, 4], [4, 3, 2, 1, 0]]
 
@@ -207,6 +215,91 @@ def run_schedule(req):
     mon.set_events(tool, 0)
     hung = any(t.is_alive() for t in threads)
     return {"seq": seq, "results": results, "switches": state["switches"], "hung": hung}
+
+
+def run_preempt(req):
+    """Child: preemption-bounded exhaustive schedules on ONE shared object. For every ordered pair of tasks
+    (x, y), x != y, and every LINE event i of x's parse inside pest / generated code: thread X runs until its i-th
+    line, then thread Y runs its whole parse, then X finishes. Both results must equal the sequential ones.
+    Returns {"schedules": n, "lines": [...], "bad": [(x, y, i, got_x, got_y)]} (at most 5 mismatches)."""
+    import sys
+    import threading
+
+    import pest
+
+    gi, cfg, which = req["object"]
+    p = pest.Parser.from_grammar(req["texts"][gi], optimizer=_make_optimizer(cfg))
+    obj = p if which == "int" else _load_module(p.generate())
+    tasks = req["tasks"]
+    seq = [_observe_plain(obj, r, t, k) for r, t, k in tasks]
+
+    mon = sys.monitoring
+    tool = 4
+    if mon.get_tool(tool) is None:
+        mon.use_tool_id(tool, "pestverif-sched")
+    st = {"tid0": None, "count": 0, "at": -1, "switched": False, "sem0": None, "sem1": None}
+
+    def on_line(code, _line):
+        fn = code.co_filename
+        if "/pest/" not in fn and fn != "<generated>":
+            return mon.DISABLE
+        if threading.get_ident() != st["tid0"] or st["switched"]:
+            return None
+        st["count"] += 1
+        if st["count"] == st["at"]:
+            st["switched"] = True
+            st["sem1"].release()
+            st["sem0"].acquire()
+        return None
+
+    mon.register_callback(tool, mon.events.LINE, on_line)
+    mon.restart_events()
+    mon.set_events(tool, mon.events.LINE)
+
+    def run_pair(x, y, at):
+        st.update(count=0, at=at, switched=False, sem0=threading.Semaphore(0), sem1=threading.Semaphore(0))
+        out = [None, None]
+
+        def t0():
+            st["tid0"] = threading.get_ident()
+            try:
+                out[0] = _observe_plain(obj, *tasks[x])
+            finally:
+                st["tid0"] = None
+                if not st["switched"]:
+                    st["switched"] = True
+                    st["sem1"].release()
+
+        def t1():
+            st["sem1"].acquire()
+            try:
+                out[1] = _observe_plain(obj, *tasks[y])
+            finally:
+                st["sem0"].release()
+
+        a, b = threading.Thread(target=t0), threading.Thread(target=t1)
+        b.start()
+        a.start()
+        a.join(30)
+        b.join(30)
+        return out, st["count"]
+
+    bad, lines, n = [], [], 0
+    try:
+        for x in range(len(tasks)):
+            _, total = run_pair(x, x, -1)  # dry run: how many line events does x's parse have?
+            lines.append(total)
+            for y in range(len(tasks)):
+                if x == y:
+                    continue
+                for at in range(1, total + 1):
+                    out, _ = run_pair(x, y, at)
+                    n += 1
+                    if (out[0], out[1]) != (seq[x], seq[y]) and len(bad) < 5:
+                        bad.append((x, y, at, out[0], out[1], seq[x], seq[y]))
+    finally:
+        mon.set_events(tool, 0)
+    return {"schedules": n, "lines": lines, "bad": bad}
 
 
 def _observe_plain(target, rule, text, k):
@@ -432,6 +525,57 @@ def run_shard(ctx: Ctx, spec):
                           f"results under the schedule differ from the sequential results: {str(res['results'])[:300]} vs {str(res['seq'])[:300]}")
         if len(ctx.samples) < 4 and res["switches"]:
             ctx.sample({"kind": "schedule", "objects": objects, "tasks": tasks, "seed": seed, "p": p, "preemptions": res["switches"]})
+    # focused contention: ONE shared object (each pool grammar x optimizer off/on x interpreter/generated), three
+    # threads parsing DIFFERENT inputs on it at the same time, frequent hand-overs
+    focused = []
+    for gi in range(len(POOL)):
+        for cfg in ("raw", "opt"):
+            for which in ("int", "gen"):
+                for rep in range(size["focus"]):
+                    focused.append((gi, cfg, which, rep))
+    for j, (gi, cfg, which, rep) in enumerate(focused):
+        if j % 16 != spec["idx"]:
+            continue
+        inputs = POOL[gi][1]
+        tasks = [[(0, *inputs[(5 * rep + 3 * t + 7 * q) % len(inputs)], 0) for q in range(2)] for t in range(3)]
+        req = {"texts": texts, "objects": [(gi, cfg, which)], "tasks": tasks, "seed": ctx.sub_seed("focus", j) % 2**31,
+               "p": (0.3, 0.6, 0.15)[rep % 3]}
+        res = one_shot("mixed", "pestverif.props.c15:run_schedule", req, timeout=180)
+        ctx.evals += sum(len(t) for t in tasks)
+        ctx.count("focused_schedules")
+        ctx.count("preemptions", res["switches"])
+        if res["switches"] >= 1:
+            ctx.nontrivial(["focus", gi, cfg, which, rep])
+        if res["hung"]:
+            ctx.violation("schedule:hung", {"kind": "schedule", **req}, "a thread did not finish under the owned scheduler")
+        elif res["results"] != res["seq"]:
+            ctx.violation("schedule:result:shared-object", {"kind": "schedule", **req},
+                          f"results under the schedule differ from the sequential results: {str(res['results'])[:300]} vs {str(res['seq'])[:300]}")
+    # preemption-bounded exhaustive schedules (one pre-emption at EVERY line of the first thread's parse)
+    pre = []
+    for gi in range(len(POOL)):
+        for cfg, which in (("opt", "int"), ("raw", "int"), ("opt", "gen")):
+            if ctx.tier == "quick" and (cfg, which) != ("opt", "int") and not (which == "gen" and gi >= len(POOL) - 2):
+                continue  # quick: the optimized interpreter everywhere, optimized generated code for two grammars
+            n_in = len(POOL[gi][1])
+            groups = [list(range(a, min(a + size["pre_inputs"], n_in))) for a in range(0, n_in, size["pre_inputs"])]
+            for grp in (groups if ctx.tier == "thorough" else groups[:1]):
+                if len(grp) >= 2:
+                    pre.append((gi, cfg, which, grp))
+    for j, (gi, cfg, which, grp) in enumerate(dict.fromkeys((a, b, c, tuple(d)) for a, b, c, d in pre)):
+        if j % 16 != spec["idx"]:
+            continue
+        tasks = [(*POOL[gi][1][q], 0) for q in grp]
+        req = {"texts": texts, "object": (gi, cfg, which), "tasks": tasks}
+        res = one_shot("mixed", "pestverif.props.c15:run_preempt", req, timeout=600)
+        ctx.evals += 2 * res["schedules"]
+        ctx.count("preempt_schedules", res["schedules"])
+        ctx.nt_extra += res["schedules"]
+        for x, y, at, g0, g1, w0, w1 in res["bad"][:1]:
+            ctx.violation("preempt:result", {"kind": "preempt", **req, "pair": [x, y], "at": at},
+                          f"thread X (task {x}) pre-empted at its line {at} by a whole parse of task {y}: results "
+                          f"{str((g0, g1))[:300]} differ from the sequential results {str((w0, w1))[:300]}")
+    ctx.exhaustive.update({"preemption_bounded": "every single pre-emption point of every ordered pair of tasks in each group"})
     # free-running supplement (one per shard)
     objects = [(0, "raw", "int"), (0, "opt", "gen"), (2, "opt", "int")]
     tasks = [[(i % 3, *POOL[objects[i % 3][0]][1][j % 4], 0) for j in range(3)] for i in range(8)]
@@ -464,6 +608,14 @@ def replay(case):
             return "schedule:hung: a thread did not finish"
         if res["results"] != res["seq"]:
             return f"schedule:result: {str(res['results'])[:300]} vs sequential {str(res['seq'])[:300]}"
+        return None
+    if case["kind"] == "preempt":
+        req = {"texts": case["texts"], "object": tuple(case["object"]), "tasks": [tuple(t) for t in case["tasks"]]}
+        res = one_shot("mixed", "pestverif.props.c15:run_preempt", req, timeout=600)
+        if res["bad"]:
+            x, y, at, g0, g1, w0, w1 = res["bad"][0]
+            return (f"preempt:result: task {x} pre-empted at line {at} by a whole parse of task {y}: "
+                    f"{str((g0, g1))[:300]} vs sequential {str((w0, w1))[:300]}")
         return None
     return None
 
